@@ -776,9 +776,16 @@ def _filter(repo, col, R="R-C11-filter"):
                 return [t_]
             for m_ in alts_(ix.args[1]):
                 has_isin = T.find(m_, lambda x: x.op == "mcall" and x.name in ("isin", "in1d")) is not None
-                rng = T.find(m_, lambda x: x.op == "cmp" and x.name in ("<", "<=", ">", ">=") and
-                             any(T.find(a_, lambda y: y.op == "param" and y.name == fi.params[2]) is not None for a_ in x.args)) if len(fi.params) > 2 else None
+                of_idx = lambda a_: T.find(a_, lambda y: y.op == "param" and y.name == fi.params[2]) is not None
+                rng = T.find(m_, lambda x: (x.op == "cmp" and x.name in ("<", "<=", ">", ">=") and any(of_idx(a_) for a_ in x.args)) or
+                             (x.op == "mcall" and x.name in ("between", "clip") and any(of_idx(a_) for a_ in x.args[1:]))) if len(fi.params) > 2 else None
                 if has_isin and rng is None:
+                    continue
+                # every row: the mask that 'all' stands for, written out (np.ones(n, dtype=bool), np.full(n, True))
+                all_true = m_.op == "mcall" and ((m_.name == "ones" and m_.kw.get("dtype") is not None and m_.kw["dtype"].name == "bool") or
+                                                 (m_.name == "full" and len(m_.args) > 2 and m_.args[2].op == "const" and m_.args[2].name is True) or
+                                                 (m_.name == "ones_like" and m_.kw.get("dtype") is not None and m_.kw["dtype"].name == "bool"))
+                if all_true and rng is None:
                     continue
                 col.add(R, fi, f"{name}: rows are selected by membership of their index in the given list, on every path",
                         "VIOLATED" if rng is not None else "UNDECIDED",
@@ -791,7 +798,9 @@ def _filter(repo, col, R="R-C11-filter"):
             # the index is `<column of the table> if <idx is "all"> else <reformatted idx>` (the helper that recognises "all" may be inlined)
             is_col = lambda b: b.op == "sub" and b.args[0].op == "attr" and b.args[0].name == tbl
             alt = T.find(arg, lambda x: x.op == "ifexp" and (is_col(x.args[1]) != is_col(x.args[2]))) if arg is not None else None
-            if alt is None:
+            if alt is None and any(m_.op == "mcall" and m_.name in ("ones", "full", "ones_like") for m_ in alts_(ix.args[1])):
+                col.ok(R, fi, f"{name}: 'all' selects every row in view", "an all-True mask over the view's own rows", node=call)
+            elif alt is None:
                 col.unk(R, fi, f"{name}: 'all' selects every row in view", "the expansion of 'all' was not found", node=call)
             else:
                 allv = alt.args[1] if is_col(alt.args[1]) else alt.args[2]
